@@ -56,7 +56,7 @@ type Miner struct {
 
 // World is one simulated run.
 type World struct {
-	inProbe bool
+	inProbe     bool
 	concSamples []concSample
 	noiseCtr    uint64
 	tape        *sim.Tape
